@@ -37,7 +37,7 @@ def run(ctx: core.Ctx) -> int:
     nplans = 0
     # ---- Python
     rel, cls = rtmodel.py_runtime(ctx)
-    fn = core.need(core.find_func(cls, "_process_model"), "runtime.ManagedFilter._process_model")
+    fn = rtmodel.py_runtime_func(ctx, cls, "_process_model")
     ctx.functions.append("runtime.ManagedFilter._process_model")
     params = [a.arg for a in fn.args.args if a.arg != "self"]
     if not params:
@@ -218,6 +218,7 @@ def cpp_part(ctx: core.Ctx) -> int:
             ctx.error(f"{HDR}: no instantiation found for valuation {val}")
             continue
         for params, body, line in ent["processUpdate"]:
+            body = rtmodel.inline_ir(body, ent.get("helpers", {}))
             seen += 1
             ctx.functions.append(f"ManagedFilter<{val}>::processUpdate({', '.join(t for _, t in params)})")
             chain_cpp(ctx, val, params, body, seen)
